@@ -616,6 +616,11 @@ func (s *Sim) await(a *actor) bool {
 	for {
 		select {
 		case m := <-s.msgs:
+			if m.a != a && m.finish && m.a.kind == 'x' {
+				// the closer was woken by the wg.Done inside the step being awaited: its return follows that step
+				deferred = append(deferred, m)
+				continue
+			}
 			if m.a != a && m.a.probed {
 				// a probed actor woke up: its step logically follows the step that woke it
 				m.a.probed = false
@@ -674,7 +679,9 @@ func (s *Sim) record(m msg) {
 		a.finished = true
 		a.point = "finished"
 		if a.kind == 'x' {
-			return // return of ForceClose/Close is judged by the oracle, it is not a model event
+			// Close / ForceClose returned: wg.Wait found the wait group empty
+			s.Trace = append(s.Trace, Ev{K: "XCloseReturned", A: a.idx})
+			return
 		}
 		if a.kind == 'c' {
 			a.call.retIdx = len(s.Trace)
@@ -1061,9 +1068,7 @@ func (s *Sim) Drain(pick func(n int) int) (stranded []string) {
 			for !a.finished {
 				select {
 				case m := <-s.msgs:
-					if m.finish {
-						m.a.finished = true // not a model event
-					}
+					s.record(m)
 				case <-t.C:
 					stranded = append(stranded, a.name+"@wg.Wait")
 					a.finished = true
